@@ -117,7 +117,7 @@ func fresh() string {
 	tmpCounter++
 	n := tmpCounter
 	tmpMu.Unlock()
-	d := filepath.Join(scratch, fmt.Sprintf("o%06d", n))
+	d := filepath.Join(scratch, fmt.Sprintf("o.%06d-x", n))
 	os.MkdirAll(d, 0755)
 	return d
 }
@@ -506,7 +506,18 @@ func main() {
 	staticChecks(acc)
 	evs := events(*tier)
 	depth := 2
-	good, _ := solo(modPath+"/good", "", false)
+	good, gok := solo(modPath+"/good", "", false)
+	if !gok {
+		// nothing else can be judged if even the simplest invocation does not put its file where it belongs
+		r := invoke(State{}, Event{Pats: []string{modPath + "/good"}})
+		var have []string
+		for p := range r.after {
+			have = append(have, p)
+		}
+		acc.Violate(ev.Violation{Key: "C17/baseline/missing-file", Msg: fmt.Sprintf("goose -out <out> %s/good (exit %d) wrote no file at <out>/%s; files under <out> afterwards: %v (the -out directory given contains '-' and '.' characters); stderr: %s", modPath, r.exit, coqPath(modPath+"/good"), have, tail(r.stderr)), Replay: map[string]any{"mode": "static"}})
+		os.RemoveAll(scratch)
+		os.Exit(acc.Done(ev.Finish{Prop: "C17", Tier: *tier, Level: "model_checking", Start: start, Rule: "baseline invocation failed; nothing else explored", Assumptions: []string{}}))
+	}
 	seeds := []State{
 		{},
 		{coqPath(modPath + "/good"): "(* garbage left by an older version *)\n", "example_com/fix/stale_pkg.v": "(* stale *)\n"},
